@@ -42,6 +42,13 @@ func F3(yield func(Program)) {
 						args = append(args, Int(int64(10+i)))
 					}
 					yield(prog("F3def", nil, FuncDecl("f", ps, Expr(List(body...))), Expr(Call(Id("f"), args...))))
+					if nd > 0 {
+						// the same signature on a closure (it captures a local of its maker), called directly,
+						// after the maker returned, and as a pipe stage
+						cbody := []*N{Expr(List(append(CloneBlock(body), Id("k"))...))}
+						mk := FuncDecl("mk", nil, Var("k", Int(99)), Var("g", Func("", ps, cbody...)), Return(List(Call(Id("g"), CloneBlock(args)...), Id("g"))))
+						yield(prog("F3defclosure", nil, mk, Var("r", callE("mk")), Expr(List(Index(Id("r"), Int(0)), Call(Index(Id("r"), Int(1)), CloneBlock(args)...)))))
+					}
 				}
 			}
 		}
